@@ -1,5 +1,256 @@
 package main
 
-func runReplay(path string) int  { return 2 }
-func runWarm() int               { return 0 }
-func runSelftest(a []string) int { return 0 }
+import (
+	"encoding/json"
+	"fmt"
+	"os"
+	"path/filepath"
+	"strings"
+	"time"
+)
+
+// runReplay re-runs one recorded violation against the current tree.
+// exit 1: it still reproduces; 0: it no longer does; 2: could not be replayed.
+func runReplay(path string) int {
+	b, err := os.ReadFile(path)
+	if err != nil {
+		fmt.Fprintf(os.Stderr, "replay: %v\n", err)
+		return 2
+	}
+	var rec struct {
+		Property string `json:"property"`
+		Sig      string `json:"sig"`
+		Seed     int64  `json:"seed"`
+		Tier     string `json:"tier"`
+		Replay   struct {
+			Engine string `json:"engine"`
+			Type   string `json:"type"`
+			Ops    []any  `json:"ops"`
+		} `json:"replay"`
+	}
+	if err := json.Unmarshal(b, &rec); err != nil {
+		fmt.Fprintf(os.Stderr, "replay: %v\n", err)
+		return 2
+	}
+	if rec.Replay.Engine == "codec" && len(rec.Replay.Ops) > 0 {
+		// precise replay: the recorded operation sequence, re-executed and re-validated by TLC
+		s, err := NewScratch(true, "")
+		defer s.Close()
+		if err != nil {
+			fmt.Fprintf(os.Stderr, "replay: scratch: %v\n", err)
+			return 2
+		}
+		r := NewResult(rec.Property, "model_checking", "quick", rec.Seed)
+		c := &Ctx{Tier: "quick", Seed: rec.Seed, S: s, R: r}
+		plan := filepath.Join(s.Dir, "plan.ndjson")
+		var sb strings.Builder
+		for _, op := range rec.Replay.Ops {
+			ob, _ := json.Marshal(op)
+			sb.Write(ob)
+			sb.WriteByte('\n')
+		}
+		os.WriteFile(plan, []byte(sb.String()), 0o644)
+		verdicts, st := runCodecJobs(c, []CodecJob{{Type: rec.Replay.Type, Plan: plan, Mode: "all", N: 1, Seed: 1}}, 1000)
+		if len(r.Internal) > 0 {
+			for _, m := range r.Internal {
+				fmt.Println("INTERNAL", m)
+			}
+			return 2
+		}
+		fmt.Printf("replayed %d events of type %s\n", st.Events, rec.Replay.Type)
+		for _, v := range verdicts {
+			fmt.Printf("mismatch: ev=%s sig=%s impl=%v ref=%v obs=%v\n", v.Ev, v.Sig, v.Impl, v.Ref, v.Event)
+			if v.Sig == rec.Sig && !v.Impl {
+				fmt.Printf("VIOLATION property=%s replay=%s\n", rec.Property, path)
+				return 1
+			}
+		}
+		fmt.Println("the recorded case no longer violates the specification")
+		return 0
+	}
+	// other engines: re-run the property's check with the recorded seed and tier and look for the
+	// same signature
+	tier := rec.Tier
+	if tier == "" {
+		tier = "quick"
+	}
+	ck, ok := checks[rec.Property]
+	if !ok {
+		return 2
+	}
+	r := NewResult(rec.Property, ck.Level, tier, rec.Seed)
+	c := &Ctx{Tier: tier, Seed: rec.Seed, R: r}
+	extra := ""
+	if ck.Random != nil {
+		if n := ck.Random(tier); n > 0 {
+			tmp, _ := os.MkdirTemp(os.Getenv("VERIF_TMP"), "verif-rnd-")
+			defer os.RemoveAll(tmp)
+			extra, _, _ = randomSchemas(n, rec.Seed, tmp)
+		}
+	}
+	s, err := NewScratch(ck.Probes, extra)
+	defer s.Close()
+	if err != nil {
+		fmt.Fprintf(os.Stderr, "replay: scratch: %v\n", err)
+		return 2
+	}
+	c.S, c.Extra = s, extra
+	ck.Run(c)
+	for _, v := range r.Violations {
+		if v.Sig == rec.Sig {
+			fmt.Printf("VIOLATION property=%s replay=%s\n  sig=%s %s\n", rec.Property, path, v.Sig, trunc(v.Detail, 400))
+			return 1
+		}
+	}
+	if len(r.Internal) > 0 {
+		return 2
+	}
+	fmt.Println("the recorded signature no longer occurs")
+	return 0
+}
+
+// runWarm parses every specification (SANY) so that a broken spec is found at setup time.
+func runWarm() int {
+	dir, _ := os.MkdirTemp("", "verif-warm-")
+	defer os.RemoveAll(dir)
+	specs, _ := filepath.Glob(filepath.Join(verifDir, "spec", "*.tla"))
+	bad := 0
+	for _, sp := range specs {
+		src, _ := os.ReadFile(sp)
+		os.WriteFile(filepath.Join(dir, filepath.Base(sp)), src, 0o644)
+	}
+	for _, sp := range specs {
+		name := filepath.Base(sp)
+		if strings.HasPrefix(name, "APA_") {
+			continue
+		}
+		out, err := run(dir, nil, 2*time.Minute, "java", "-cp", tlaJar, "tla2sany.SANY", name)
+		if err != nil || strings.Contains(out, "*** Errors") || strings.Contains(out, "Fatal errors") {
+			fmt.Printf("SANY %s: %v\n%s\n", name, err, trunc(out, 1500))
+			bad++
+		}
+	}
+	if bad > 0 {
+		return 2
+	}
+	fmt.Printf("warm: %d specifications parse\n", len(specs))
+	return 0
+}
+
+// runSelftest: the non-vacuity variants built into the specifications must FAIL, and the
+// binding must reject corrupted traces.
+func runSelftest(args []string) int {
+	dir, _ := os.MkdirTemp("", "verif-selftest-")
+	defer os.RemoveAll(dir)
+	fail := 0
+	expectViolation := func(name, spec, cfg string, env map[string]string, needSchema bool) {
+		res, err := RunTLC(filepath.Join(dir, name), TLCOpts{Spec: spec, Cfg: cfg, Env: env, Workers: 4, Timeout: 10 * time.Minute})
+		if err != nil {
+			fmt.Printf("selftest %s: %v\n", name, err)
+			fail++
+			return
+		}
+		if !strings.Contains(res.Err, "is violated") {
+			fmt.Printf("selftest %s: expected an invariant violation under the variant, TLC said: %s\n", name, trunc(res.Err+res.Raw, 400))
+			fail++
+			return
+		}
+		fmt.Printf("selftest %s: variant violates the invariant as required (%s)\n", name, firstLine(res.Err))
+	}
+	expectViolation("plugin-unsorted", "Plugin", "Plugin.cfg", map[string]string{"VERIF_SORTED": "0", "VERIF_EXPORT": "0"}, false)
+	expectViolation("mem-alias", "Mem", "Mem.cfg", map[string]string{"VERIF_ALIAS": "1"}, false)
+	expectViolation("readers-caching", "Readers", "Readers.cfg", map[string]string{"VERIF_CACHING": "1"}, false)
+	expectViolation("rapidgen-enum-by-index", "RapidGen", "RapidGen.cfg", map[string]string{"VERIF_ENUMIDX": "1"}, false)
+	expectViolation("timepb-pinned-borrow", "TimePB", "TimePB.cfg", map[string]string{"VERIF_BORROW": "pinned", "VERIF_EXPORT": "0"}, false)
+	if r, out := apalacheInv(filepath.Join(dir, "apa"), "APA_TimePB", "ExactOnValidPinned"); r != "Error" {
+		fmt.Printf("selftest apalache-pinned: expected a counterexample, got %q %s\n", r, trunc(lastLines(out, 4), 300))
+		fail++
+	} else {
+		fmt.Println("selftest apalache-pinned: counterexample found as required")
+	}
+	// the variants that need a schema and the binding tests need the harness
+	s, err := NewScratch(false, "")
+	defer s.Close()
+	if err != nil {
+		fmt.Printf("selftest: scratch: %v\n", err)
+		return 2
+	}
+	schema := filepath.Join(dir, "s0.schema.json")
+	if o, err := s.HRun(time.Minute, "schema", "--type", "verif.s0.M", "--out", schema); err != nil {
+		fmt.Printf("selftest: %v %s\n", err, o)
+		return 2
+	}
+	expectViolation("codec-flag-not-forwarded", "MC_Codec", "MC_Codec.cfg",
+		map[string]string{"VERIF_SCHEMA": schema, "VERIF_TYPE": "verif.s0.M", "VERIF_MAXLEN": "2", "VERIF_EXPORT": "0", "VERIF_FWD": "0"}, true)
+	// binding: corrupt one recorded field and require Trace_Codec to reject exactly that event
+	events := filepath.Join(dir, "events.ndjson")
+	if o, err := s.HRun(2*time.Minute, "codec", "--type", "verif.s0.M", "--n", "5", "--seed", "7", "--mode", "all", "--out", events); err != nil {
+		fmt.Printf("selftest: %v %s\n", err, o)
+		return 2
+	}
+	lines := readLines(events)
+	corrupt := func(name string, pick func(map[string]any) bool, mutate func(map[string]any)) {
+		out := make([]string, len(lines))
+		copy(out, lines)
+		hit := -1
+		for i, l := range lines {
+			var e map[string]any
+			json.Unmarshal([]byte(l), &e)
+			if hit < 0 && pick(e) {
+				mutate(e)
+				b, _ := json.Marshal(e)
+				out[i] = string(b)
+				hit = i + 1
+			}
+		}
+		if hit < 0 {
+			fmt.Printf("selftest binding %s: no event to corrupt\n", name)
+			fail++
+			return
+		}
+		tf := filepath.Join(dir, name+".ndjson")
+		os.WriteFile(tf, []byte(strings.Join(out, "\n")+"\n"), 0o644)
+		res, err := RunTLC(filepath.Join(dir, "b-"+name), TLCOpts{Spec: "Trace_Codec", Cfg: "Trace_Codec.cfg", Env: map[string]string{"VERIF_SCHEMA": schema, "VERIF_TRACE": tf}, Timeout: 10 * time.Minute})
+		if err != nil || res.Err != "" {
+			fmt.Printf("selftest binding %s: %v %s\n", name, err, trunc(res.Err, 300))
+			fail++
+			return
+		}
+		rejected := false
+		for _, l := range res.Lines {
+			if strings.HasPrefix(l, "VERDICT ") && strings.Contains(l, fmt.Sprintf(`"l":%d,`, hit)) {
+				rejected = true
+			}
+		}
+		if !rejected {
+			fmt.Printf("selftest binding %s: corrupted event %d was NOT rejected\n", name, hit)
+			fail++
+		} else {
+			fmt.Printf("selftest binding %s: corrupted event %d rejected\n", name, hit)
+		}
+	}
+	corrupt("flip-output-byte", func(e map[string]any) bool { o, _ := e["out"].([]any); return e["ev"] == "marshal" && e["det"] == true && len(o) > 2 },
+		func(e map[string]any) { o := e["out"].([]any); o[1] = float64(int(o[1].(float64)) ^ 1) })
+	corrupt("wrong-size", func(e map[string]any) bool { return e["ev"] == "size" }, func(e map[string]any) { e["n"] = e["n"].(float64) + 1 })
+	corrupt("drop-unknown", func(e map[string]any) bool {
+		st, _ := e["st"].(map[string]any)
+		if e["ev"] != "unmarshal" || st == nil {
+			return false
+		}
+		u, _ := st["u"].([]any)
+		return len(u) > 0
+	}, func(e map[string]any) { e["st"].(map[string]any)["u"] = []any{} })
+	if fail > 0 {
+		fmt.Printf("selftest: %d failure(s)\n", fail)
+		return 1
+	}
+	fmt.Println("selftest: all non-vacuity variants fail as required and the binding rejects corrupted traces")
+	return 0
+}
+
+func firstLine(s string) string {
+	if i := strings.Index(s, "\n"); i > 0 {
+		return s[:i]
+	}
+	return s
+}
